@@ -5,7 +5,10 @@ Import ListNotations.
 Open Scope string_scope.
 
 (* observed results use the same [res] type; digests are small numbers assigned by the harness *)
-Record case := mkCase { c_idx : list entry; c_files : list nat; c_ops : list op; c_obs : list res }.
+(* mkReg: a history on a registry repository that starts empty, against the abstract map itself *)
+Inductive case :=
+| mkCase (c_idx : list entry) (c_files : list nat) (c_ops : list op) (c_obs : list res)
+| mkReg (ops : list op) (obs : list res).
 
 Definition res_eqb (a b : res) : bool :=
   match a, b with
@@ -17,7 +20,11 @@ Definition res_eqb (a b : res) : bool :=
   | _, _ => false
   end.
 
-Definition check (c : case) : bool := list_eqb res_eqb (run (mkL (c_idx c) (c_files c)) (c_ops c)) (c_obs c).
+Definition check (c : case) : bool :=
+  match c with
+  | mkCase c_idx c_files c_ops c_obs => list_eqb res_eqb (run (mkL c_idx c_files) c_ops) c_obs
+  | mkReg ops obs => list_eqb res_eqb (spec_run (mkS [] []) ops) obs
+  end.
 
 Fixpoint mismatches_from (i : nat) (cs : list case) : list nat :=
   match cs with
